@@ -41,6 +41,11 @@
 #include "common/wirepeer.h"
 #include "data/hash_queue.h"
 #include "download/delegator.h"
+#include "manager.h"
+#include "protocol/handshake_manager.h"
+#include "torrent/download/choke_group.h"
+#include "torrent/download/choke_queue.h"
+#include "torrent/download/resource_manager.h"
 #include "download/download_main.h"
 #include "download/download_wrapper.h"
 #include "protocol/peer_connection_base.h"
@@ -549,6 +554,26 @@ static bool answer(Ctx& c, PeerS* p, size_t k) {
   return true;
 }
 
+// Process-global state that a case must find at its baseline: anything carried over from earlier cases (unchoke slot
+// accounting, choke queues, handshakes, hash jobs) could decide whether THIS case's download is served.
+static std::string dirty_start(Session& S) {
+  std::ostringstream o;
+  auto* rm = torrent::manager->resource_manager();
+  if (rm->currently_upload_unchoked() != 0) o << " up_unchoked=" << rm->currently_upload_unchoked();
+  if (rm->currently_download_unchoked() != 0) o << " down_unchoked=" << rm->currently_download_unchoked();
+  int g = 0;
+  for (auto itr = rm->group_begin(); itr != rm->group_end(); ++itr, ++g) {
+    auto* grp = elem_ptr(*itr);
+    if (grp->up_queue()->size_unchoked() || grp->up_queue()->size_queued() || grp->down_queue()->size_unchoked() || grp->down_queue()->size_queued())
+      o << " group" << g << "=" << grp->up_queue()->size_unchoked() << "/" << grp->up_queue()->size_queued() << "/"
+        << grp->down_queue()->size_unchoked() << "/" << grp->down_queue()->size_queued();
+  }
+  if (rm->size() != 0) o << " downloads=" << rm->size();
+  if (S.handshake_count() != 0) o << " handshakes=" << S.handshake_count();
+  if (torrent::ThreadMain::thread_main()->hash_queue()->size() != 0) o << " hash_queue=" << torrent::ThreadMain::thread_main()->hash_queue()->size();
+  return o.str();
+}
+
 static std::string run_case(Session& S, const std::string& line) {
   size_t bar = line.find('|');
   if (bar == std::string::npos) return "BADCASE";
@@ -879,6 +904,18 @@ int main(int argc, char** argv) {
     try {
       alarm(line.find(" big=") != std::string::npos ? 4 * case_limit : case_limit);
       if (!S) S = std::make_unique<Session>();
+      {
+        S->step();
+        std::string dirty = dirty_start(*S);
+        if (!dirty.empty()) {
+          // not at the baseline: this process is not fit to judge liveness any more. Log it and end WITHOUT a result line:
+          // ltv.run_sharded re-runs the case (and the rest of the shard) in fresh processes.
+          if (const char* lf = getenv("LTV_C01_DIRTYLOG")) { std::ofstream f(lf, std::ios::app); f << "DIRTY-START" << dirty << " before: " << line.substr(0, 160) << "\n"; }
+          fprintf(stderr, "DIRTY-START%s\n", dirty.c_str());
+          { std::error_code ec; std::filesystem::remove_all(S->scratch(), ec); }
+          _exit(6);
+        }
+      }
       std::cout << run_case(*S, line) << "\n";
       alarm(0);
     } catch (torrent::internal_error& e) {
